@@ -93,8 +93,8 @@ def run_scripts(ctx, binp, scripts, timeout=900):
 
 def crash_summary(rc, stderr):
     for l in stderr.splitlines():
-        if l.startswith("SUMMARY:"):
-            return l
+        if l.startswith("SUMMARY:") or "runtime error:" in l:
+            return l.strip()
     return "exit status %d%s" % (rc, " (signal %d)" % -rc if rc < 0 else "")
 
 
@@ -250,6 +250,11 @@ def replay_edges(ctx, binp, be, nodes, scripts, tag):
         elif split_obs(outs2[0][j])[0] != ov:
             raise vlib.ToolError("mismatch did not reproduce (flaky harness?): %r" % script)
         else:
+            # the recorded execution must also be rejected by the trace specification
+            rej, _ = validate(ctx, binp, [script], "edge witness", count=False)
+            if not rej:
+                raise vlib.ToolError("edge replay disagrees with TLC's prediction but "
+                                     "UpumpBlocker_Trace accepts the history: %r" % script)
             kind = scripts[i][0]
             key = "%s;%s;%s" % (be, kind, ",".join(script[1:]))
             ctx.violation(key,
@@ -391,9 +396,35 @@ def random_histories(ctx, binp, nexec, length, tag, report=True):
     return {"build": tag, "executions": len(scripts), "events": nev, "rejected": len(rej)}
 
 
+# --------------------------------------------------------------------- replay
+def replay(ctx, rp):
+    """bin/check C13 --replay replays/C13_xxx.json"""
+    binp = ctx.cc("replay_pump_asan", SRCS, libs=LIBS, san="asan")
+    script = rp["replay"]["stdin"]
+    c = crashes(ctx, binp, script)
+    if c is not None:
+        print("VIOLATION property=C13 reproduced: %s dies after %d commands: %s"
+              % (script, c[0], crash_summary(c[1], c[2])))
+        return 1
+    outs, _ = run_scripts(ctx, binp, [script])
+    for cmd, line in zip(script[1:], outs[0]):
+        print("  %-14s -> %s" % (cmd, line))
+    rej, _ = validate(ctx, binp, [script], "replay", count=False)
+    if rej:
+        print("VIOLATION property=C13 reproduced: UpumpBlocker_Trace rejects command %d (%s): %s"
+              % (rej[0][1], script[rej[0][1]], json.dumps(rej[0][3])))
+        return 1
+    print("OK property=C13 replay not reproduced (history accepted)")
+    return 0
+
+
 # ------------------------------------------------------------------------ run
 def run(ctx):
     bin_asan = ctx.cc("replay_pump_asan", SRCS, libs=LIBS, san="asan")
+    # tool sanity: the parts of the vloop API the replay does not reach
+    r = ctx.run([bin_asan], input="selftest\n", timeout=60, env=ENV)
+    if r.returncode != 0 or "selftest ok" not in r.stdout:
+        raise vlib.ToolError("vloop selftest failed rc=%d: %s" % (r.returncode, (r.stderr or "")[-1500:]))
     ctx.assumptions += [
         "one pump, up to 3 blockers, the blocker call-back frees its blocker (as upipe_helper_input does)",
         "upump_restart is exercised where it is documented: on timer pumps, and on other pumps only "
